@@ -201,6 +201,11 @@ Fixpoint b_observe (d : bdb) (k : list (N * N)) (h : list op) : list obs :=
 Definition run_case (c : list op * list pop) : list obs * list obs :=
   (b_observe bdb0 [] (fst c), p_observe pdb0 [] (snd c)).
 
+(* every case is emitted through this typed constructor, so that empty lists and [None]s inside
+   a case always have their type, whatever the shape of the case *)
+Definition mk_case (ops : list op) (pops : list pop) (ob op2 : list obs)
+  : (list op * list pop) * (list obs * list obs) := ((ops, pops), (ob, op2)).
+
 Definition case_eqb (a b : list obs * list obs) : bool :=
   list_eqb obs_eqb (fst a) (fst b) &&
   (* the recorded pathbadger observations may be a prefix (the harness stops recording them
